@@ -296,9 +296,6 @@ impl Svc {
     pub fn alive(&self) -> bool {
         !self.s.task.is_finished()
     }
-    pub fn local_id(&self) -> K32 {
-        self.s.local_enr.read().node_id().raw()
-    }
 }
 
 pub fn runtime() -> tokio::runtime::Runtime {
@@ -589,10 +586,6 @@ pub fn base_config(mode: u64) -> ConfigBuilder {
     ConfigBuilder::new(listen_config(mode))
 }
 
-pub fn ip_of(a: &SocketAddr) -> IpAddr {
-    a.ip()
-}
-
 pub const HEADER: &str = "From Coq Require Import List NArith.\nImport ListNotations.\nFrom Discv5V Require Import Model.KBucket Model.Nodes Model.Serve Model.Admission Run.Common Run.KBucketRun Run.ServiceRun.\nOpen Scope N_scope.";
 
 pub struct CaseResult {
@@ -635,6 +628,11 @@ pub fn main(args: &[String]) {
         i += 1;
     }
     let idents = make_idents(if focus == "c12" { 96 } else { 640 });
+    if focus == "c14margin" {
+        // experiment, not a check: see c14::margin_experiment
+        c14::margin_experiment(&idents);
+        return;
+    }
     let mut sum = Summary::new(&format!("service/{}", focus));
     let (ty, check, per_file) = match focus.as_str() {
         "c11" => ("c11case", "check_c11", 24),
